@@ -69,12 +69,19 @@ func desc(d string, n int) descriptor.Descriptor {
 }
 
 // RefArtifact builds the referrer artifact for a subject manifest.
-func RefArtifact(subject string, body []byte) *graphs.Graph {
+func RefArtifact(subject string, body []byte) *graphs.Graph { return RefArtifactN(subject, body, 1) }
+
+// RefArtifactN builds the n-th referrer artifact (distinct content and type per n) for a subject.
+func RefArtifactN(subject string, body []byte, n int) *graphs.Graph {
 	g := graphs.New("ref", "sha256")
 	var doc modelreg.ManDoc
 	json.Unmarshal(body, &doc)
 	sd := modelreg.Desc{MediaType: doc.MediaType, Digest: subject, Size: int64(len(body))}
-	g.Top = g.Artifact("application/vnd.example.sig", "sig-for-"+subject[7:15], &sd, nil).Digest
+	at, pfx := "application/vnd.example.sig", "sig-for-"
+	if n > 1 {
+		at, pfx = fmt.Sprintf("application/vnd.example.sbom%d", n), fmt.Sprintf("sbom%d-for-", n)
+	}
+	g.Top = g.Artifact(at, pfx+subject[7:15], &sd, nil).Digest
 	return g
 }
 
@@ -146,6 +153,17 @@ func (e *Env) Do(ctx context.Context, op string) error {
 			return fmt.Errorf("refdel: tag %s has no manifest", f[1])
 		}
 		return e.RC.ManifestDelete(ctx, b.SetDigest(RefArtifact(d, body).Top))
+	case "refput2", "refdel2":
+		// a second referrer of the same subject
+		d, body := e.tagDigest(f[1])
+		if d == "" {
+			return fmt.Errorf("%s: tag %s has no manifest", f[0], f[1])
+		}
+		g := RefArtifactN(d, body, 2)
+		if f[0] == "refput2" {
+			return e.pushGraph(ctx, g, "")
+		}
+		return e.RC.ManifestDelete(ctx, b.SetDigest(g.Top))
 	case "tagdel":
 		return e.RC.TagDelete(ctx, b.SetTag(f[1]))
 	case "mandel":
@@ -177,7 +195,7 @@ func Benign(op string, err error) bool {
 		return true
 	}
 	k := strings.Split(op, ":")[0]
-	if k == "tagdel" || k == "mandel" || k == "refdel" {
+	if k == "tagdel" || k == "mandel" || k == "refdel" || k == "refdel2" {
 		return errors.Is(err, errs.ErrNotFound) || errors.Is(err, os.ErrNotExist) || strings.Contains(err.Error(), "not found") || strings.Contains(err.Error(), "no such file")
 	}
 	return false
